@@ -1016,6 +1016,8 @@ func callBuiltin(caller *frame, callpos token.Pos, fn *ssa.Builtin, args []value
 			return x.len
 		case symv:
 			return symv{'i', "((_ int2bv 64) (str.len " + x.term + "))"}
+		case symstr:
+			return len(x.b)
 		case string:
 			return len(x)
 		case array:
@@ -1128,6 +1130,8 @@ func rangeIter(r *Run, x value, t types.Type) iter {
 		return &hashmapIter{r: r, ents: ents}
 	case string:
 		return &stringIter{Reader: strings.NewReader(x)}
+	case symstr:
+		return &symstrIter{s: x}
 	}
 	panic(fmt.Sprintf("cannot range over %T", x))
 }
@@ -1173,11 +1177,31 @@ func widen(x value) value {
 // the result.
 // Possible cases are described with the ssa.Convert operator.
 func conv(t_dst, t_src types.Type, x value) value {
-	if isSym(x) {
-		return x // prototype: same-width integer conversions only
+	if sv, ok := x.(symv); ok {
+		return symConv(t_dst, t_src, sv)
 	}
 	ut_src := t_src.Underlying()
 	ut_dst := t_dst.Underlying()
+	if ss, ok := x.(symstr); ok {
+		switch d := ut_dst.(type) {
+		case *types.Basic:
+			return x
+		case *types.Slice:
+			if d.Elem().Underlying().(*types.Basic).Kind() == types.Byte {
+				return append([]value{}, ss.b...)
+			}
+			// []rune of an ASCII string
+			res := make([]value, len(ss.b))
+			for i, b := range ss.b {
+				if c, ok := b.(byte); ok {
+					res[i] = rune(c)
+				} else {
+					res[i] = b
+				}
+			}
+			return res
+		}
+	}
 
 	// Destination type is not an "untyped" type.
 	if b, ok := ut_dst.(*types.Basic); ok && b.Info()&types.IsUntyped != 0 {
@@ -1220,11 +1244,7 @@ func conv(t_dst, t_src types.Type, x value) value {
 		switch ut_src.Elem().Underlying().(*types.Basic).Kind() {
 		case types.Byte:
 			x := x.([]value)
-			b := make([]byte, 0, len(x))
-			for i := range x {
-				b = append(b, x[i].(byte))
-			}
-			return string(b)
+			return mkStr(append([]value{}, x...))
 
 		case types.Rune:
 			x := x.([]value)
@@ -1519,4 +1539,23 @@ func fandbits[F floaty](x, y F) F {
 		*(*uint64)(unsafe.Pointer(&x)) &= *(*uint64)(unsafe.Pointer(&y))
 	}
 	return x
+}
+
+// symstrIter ranges over a byte-vector string (bytes are ASCII by construction).
+type symstrIter struct {
+	s symstr
+	i int
+}
+
+func (it *symstrIter) next() tuple {
+	if it.i >= len(it.s.b) {
+		return tuple{false, -1, nil}
+	}
+	b := it.s.b[it.i]
+	var r value = b
+	if c, ok := b.(byte); ok {
+		r = rune(c)
+	}
+	it.i++
+	return tuple{true, it.i - 1, r}
 }
